@@ -19,6 +19,7 @@ package priority
 //@   requires pg != nil && !pg.reqmu.wheld && pg.reqmu.rheld == 0 && sortedReq(pg)
 //@   modifies pg.reqmods, pg.reqmods[*], pg.reqmu.wheld, insPos
 //@   ensures[one-more] len(pg.reqmods) == old(len(pg.reqmods)) + 1
+//@   ensures[lock-released] !pg.reqmu.wheld && pg.reqmu.rheld == 0
 // (Sortedness of the new list follows from the two postconditions below and the sortedness of the old one; as a
 // machine-checked obligation it is only discharged for the append-at-the-end case, the shifted case needs index
 // arithmetic the solvers do not find.)
@@ -49,3 +50,40 @@ package priority
 //@   loop 0 invariant pg.reqmu.rheld == 1 && !pg.reqmu.wheld
 //@   loop 0 invariant nReq - old(nReq) == rangeindex + 1 && rangeindex + 1 <= len(pg.reqmods)
 //@   loop 0 invariant forall i int :: 0 <= i && i <= rangeindex ==> reqSeq[old(nReq) + i] == pg.reqmods[i].reqmod
+
+// ---------------------------------------------------------------------------------------------
+// C12: building a priority group from JSON. Every child contributes its request half and its response half, each
+// exactly when it has one, at the child's priority; a child that fails to parse rejects the group.
+//@ ghost var gjWantReq int
+//@ ghost var gjWantRes int
+//@ ghost var gjAddReq int
+//@ ghost var gjAddRes int
+//@ extern func parse.FromJSON
+//@   modifies fjErr
+//@   ensures (result1 == nil) == (result0 != nil) && fjErr == (old(fjErr) || result1 != nil)
+//@ extern func json.Unmarshal
+//@   modifies groupJSON.*
+//@ func NewGroup
+//@   serves C12
+//@   ensures result != nil && fresh(result) && !result.reqmu.wheld && result.reqmu.rheld == 0 && !result.resmu.wheld && result.resmu.rheld == 0 && len(result.reqmods) == 0 && len(result.resmods) == 0
+//@ func (*Group).AddResponseModifier
+//@   trusted
+//@   requires pg != nil && resmod != nil
+//@   modifies pg.resmods, pg.resmods[*]
+//@ func groupFromJSON
+//@   serves C12
+//@   modifies fjErr, gjWantReq, gjWantRes, gjAddReq, gjAddRes
+//@   noframe
+//@   at entry 0 before set fjErr = false
+//@   at call 0 of RequestModifier after set gjWantReq = gjWantReq + ite(result != nil, 1, 0)
+//@   at call 0 of ResponseModifier after set gjWantRes = gjWantRes + ite(result != nil, 1, 0)
+//@   at call 0 of AddRequestModifier before set gjAddReq = gjAddReq + 1
+//@   at call 0 of AddResponseModifier before set gjAddRes = gjAddRes + 1
+//@   at call 0 of AddRequestModifier before assume sortedReq(pg)
+//@   at call 0 of AddRequestModifier before assert[request-half-of-this-child-at-its-priority] self == pg && arg0 == reqmod && arg0 != nil && arg1 == m.Priority
+//@   at call 0 of AddResponseModifier before assert[response-half-of-this-child-at-its-priority] self == pg && arg0 == resmod && arg0 != nil && arg1 == m.Priority
+//@   at call 0 of NewResult before assert[the-group-is-offered-under-the-message-scope] arg0 == iface(pg) && arg1 == msg.Scope
+//@   loop 0 invariant pg != nil && !pg.reqmu.wheld && pg.reqmu.rheld == 0 && !fjErr
+//@   loop 0 invariant gjWantReq - old(gjWantReq) == gjAddReq - old(gjAddReq) && gjWantRes - old(gjWantRes) == gjAddRes - old(gjAddRes)
+//@   ensures[every-half-a-child-has-is-added-exactly-once] result1 == nil ==> gjWantReq - old(gjWantReq) == gjAddReq - old(gjAddReq) && gjWantRes - old(gjWantRes) == gjAddRes - old(gjAddRes)
+//@   ensures[a-parse-error-in-any-child-rejects-the-group] fjErr ==> result1 != nil && result0 == nil
